@@ -21,6 +21,7 @@ def mnames : Particle → List String
   | .elem q _ _ _ => [q.name]
   | .choice bs _ _ => pnames bs
   | .seq ps _ _ => lnames ps
+  | .group p _ _ => mnames p
   | _ => []
 
 def lnames : List Particle → List String
